@@ -94,6 +94,9 @@ class FilterExpression(Expression):
 
         if isinstance(expression, PrefixExpression):
             operand = self._canonical_string(expression.right, PRECEDENCE_PREFIX)
+            if isinstance(expression.right, (ComparisonExpression, PrefixExpression)):
+                # `!` binds more tightly than a comparison, and `!!` is not valid.
+                operand = f"({operand})"
             expr = f"!{operand}"
             return f"({expr})" if parent_precedence > PRECEDENCE_PREFIX else expr
 
